@@ -2,7 +2,7 @@
 From Coq Require Import NArith List String Ascii Bool.
 From Coq Require Import Strings.Byte.
 From PDL Require Import Base.Bits Base.Outcome Lang.Ast Lang.Sexp Lang.AstSexp
-     Analyzer.Schema Analyzer.Desugar Rust.Enum Sem.RefEncode Rust.Encode Rust.Decode.
+     Analyzer.Schema Analyzer.Desugar Rust.Enum Sem.RefEncode Sem.RefDecode Rust.Encode Rust.Decode Rust.Inherit.
 Import ListNotations.
 Open Scope string_scope.
 Open Scope N_scope.
@@ -74,6 +74,128 @@ Definition show_outcome {E A} (id : string) (en : E -> string) (sh : A -> string
   | Diverge => reply id "diverge" ""
   end.
 
+
+Definition fault_name (f : fault) : string :=
+  match f with
+  | FLength => "LengthError" | FFixed => "FixedValueError" | FArraySize => "ArraySizeError"
+  | FEnum => "EnumValueError" | FConstraint => "ConstraintValueError"
+  | FTrailing => "TrailingBytesError" | FTrailingInArray => "TrailingBytesInArray"
+  | FUnsupported => "Unsupported" | FFuel => "Fuel"
+  end.
+
+Definition show_rres {A} (id : string) (sh : A -> string) (r : rres A) : string :=
+  match r with
+  | ROk a => reply id "ok" (sh a)
+  | RFault FUnsupported => reply id "unsupported" ""
+  | RFault FFuel => reply id "diverge" ""
+  | RFault f => reply id "err" (fault_name f)
+  end.
+
+Definition size_str (s : size) : string :=
+  match s with
+  | SStatic n => "static:" ++ dec_of_N n
+  | SDynamic => "dynamic"
+  | SUnknown => "unknown"
+  end.
+
+Definition osize_str (s : option size) : string :=
+  match s with Some x => size_str x | None => "panic" end.
+
+Definition evariant_str (e : evariant) : string :=
+  match e with
+  | ENamed id v => "named:" ++ id ++ ":" ++ dec_of_N v
+  | ERange id x => "range:" ++ id ++ ":" ++ dec_of_N x
+  | EOther id x => "other:" ++ id ++ ":" ++ dec_of_N x
+  end.
+
+Definition etry_str (t : option etry) : string :=
+  match t with
+  | Some (TOk e) => "ok:" ++ evariant_str e
+  | Some (TErr x) => "err:" ++ dec_of_N x
+  | Some TNoArm => "noarm"
+  | None => "genpanic"
+  end.
+
+(** run-length classes of [try_from] over [lo, lo+n): "ok" (Ok and converts back to x),
+    "err" *)
+Fixpoint enum_sweep (k : nat) (tags : list tag) (w x : N) (cur : string) (start cnt : N)
+         (acc : list string) : list string :=
+  match k with
+  | O => rev (if cnt =? 0 then acc else (dec_of_N start ++ ":" ++ dec_of_N cnt ++ ":" ++ cur) :: acc)
+  | S k' =>
+      let cls :=
+        match integer_width w with
+        | Some bw =>
+            if 2 ^ bw <=? x then "toowide"
+            else match rust_enum_try_from tags w x with
+                 | Some (TOk e) => if evariant_to_N e =? x then "ok" else "bad"
+                 | Some (TErr v) => if v =? x then "err" else "errbad"
+                 | Some TNoArm => "noarm"
+                 | None => "genpanic"
+                 end
+        | None => "genpanic"
+        end in
+      if String.eqb cls cur then enum_sweep k' tags w (x + 1) cur start (cnt + 1) acc
+      else
+        let acc' := if cnt =? 0 then acc
+                    else (dec_of_N start ++ ":" ++ dec_of_N cnt ++ ":" ++ cur) :: acc in
+        enum_sweep k' tags w (x + 1) cls x 1 acc'
+  end.
+
+Definition field_kind (f : field) : string :=
+  match f_desc f with
+  | Checksum _ => "checksum_field" | Padding _ => "padding_field" | Size _ _ => "size_field"
+  | Count _ _ => "count_field" | ElementSize _ _ => "elementsize_field" | Body => "body_field"
+  | Payload _ => "payload_field" | FixedScalar _ _ | FixedEnum _ _ => "fixed_field"
+  | Reserved _ => "reserved_field" | Array _ _ _ _ _ => "array_field" | Scalar _ _ => "scalar_field"
+  | Flag _ _ => "flag_field" | Typedef _ _ => "typedef_field" | Group _ _ => "group_field"
+  end.
+
+Definition esize_str (e : option elem_size) : string :=
+  match e with
+  | Some (EStatic n) => "static:" ++ dec_of_N n
+  | Some EDynamic => "dynamic"
+  | Some EUnknown => "unknown"
+  | None => "panic"
+  end.
+
+Definition asize_str (a : arr_size) : string :=
+  match a with
+  | AStaticCount n => "static:" ++ dec_of_N n
+  | ADynamicCount => "count"
+  | ADynamicSize => "size"
+  | AUnknown => "unknown"
+  end.
+
+(** One line per declaration: id|decl|parent|payload|total|field;field;... each field
+    kind,field_size,padded,element_size,array_size *)
+Definition schema_dump (fl : file) (sch : schema) : string :=
+  concat_sep "\n"
+    (flat_map (fun d =>
+       match decl_id d with
+       | None => []
+       | Some id =>
+           match assoc id sch with
+           | None => [id ++ "|missing"]
+           | Some ds =>
+               let fstrs :=
+                 (fix go (fs : list field) : list string :=
+                    match fs with
+                    | [] => []
+                    | f :: rest =>
+                        (field_kind f ++ "," ++ osize_str (field_size sch d f) ++ ","
+                         ++ (match next_padding rest with Some p => dec_of_N p | None => "-" end) ++ ","
+                         ++ (match f_desc f with
+                             | Array _ _ _ _ _ => esize_str (element_size fl sch d f) ++ "," ++ asize_str (array_size d f)
+                             | _ => "-,-"
+                             end)) :: go rest
+                    end) (decl_fields d) in
+               [id ++ "|" ++ size_str (ds_decl ds) ++ "|" ++ size_str (ds_parent ds) ++ "|"
+                ++ size_str (ds_payload ds) ++ "|" ++ osize_str (ds_total ds) ++ "|"
+                ++ concat_sep ";" fstrs]
+           end
+       end) (f_decls fl)).
+
 Definition run_case (ld : loaded) (line : string) : string :=
   match parse_sexp line with
   | Some (SList (Atom id :: Atom op :: Atom fuel :: Atom ty :: args)) =>
@@ -122,6 +244,113 @@ Definition run_case (ld : loaded) (line : string) : string :=
                 end
             | _ => reply id "bad" "args"
             end
+          else if String.eqb op "ref-decode" then
+            match args with
+            | [Atom hex] =>
+                match bytes_of_hex hex with
+                | Some bs =>
+                    show_rres id (fun r => json_of_value (fst r) ++ tab ++ hex_of_bytes (snd r))
+                              (ref_decode fu fl ty bs)
+                | None => reply id "bad" "hex"
+                end
+            | _ => reply id "bad" "args"
+            end
+          else if String.eqb op "ref-decode-full" then
+            match args with
+            | [Atom hex] =>
+                match bytes_of_hex hex with
+                | Some bs => show_rres id json_of_value (ref_decode_full fu fl ty bs)
+                | None => reply id "bad" "hex"
+                end
+            | _ => reply id "bad" "args"
+            end
+          else if String.eqb op "rust-specialize" then
+            match args with
+            | [Atom hex; Atom oc] =>
+                match bytes_of_hex hex, lookup_decl fl ty with
+                | Some bs, Some d =>
+                    let ocb := String.eqb oc "1" in
+                    match rust_decode fu ocb fl sch ty bs with
+                    | Ok (VObj pobj, rest) =>
+                        match rust_specialize fu ocb fl sch d pobj with
+                        | Ok (Some (cid, v)) =>
+                            reply id "ok" (cid ++ tab ++ json_of_value v ++ tab ++ hex_of_bytes rest)
+                        | Ok None => reply id "none" ""
+                        | Err e => reply id "err" ("specialize" ++ tab ++ derr_name e)
+                        | Panic k => reply id "panic" (panic_name k)
+                        | Diverge => reply id "diverge" ""
+                        end
+                    | Ok _ => reply id "bad" "value"
+                    | Err e => reply id "err" ("decode" ++ tab ++ derr_name e)
+                    | Panic k => reply id "panic" (panic_name k)
+                    | Diverge => reply id "diverge" ""
+                    end
+                | _, _ => reply id "bad" "hex"
+                end
+            | _ => reply id "bad" "args"
+            end
+          else if String.eqb op "rust-try-from" then
+            match args with
+            | [Atom anc; Atom hex; Atom oc] =>
+                match bytes_of_hex hex, lookup_decl fl ty, lookup_decl fl anc with
+                | Some bs, Some d, Some a =>
+                    let ocb := String.eqb oc "1" in
+                    match rust_decode fu ocb fl sch anc bs with
+                    | Ok (VObj aobj, _) =>
+                        match try_from_ancestor fu ocb fl sch (S (List.length (f_decls fl))) d a aobj with
+                        | Ok v => reply id "ok" (json_of_value v)
+                        | Err e => reply id "err" ("convert" ++ tab ++ derr_name e)
+                        | Panic k => reply id "panic" (panic_name k)
+                        | Diverge => reply id "diverge" ""
+                        end
+                    | Ok _ => reply id "bad" "value"
+                    | Err e => reply id "err" ("decode" ++ tab ++ derr_name e)
+                    | Panic k => reply id "panic" (panic_name k)
+                    | Diverge => reply id "diverge" ""
+                    end
+                | _, _, _ => reply id "bad" "hex"
+                end
+            | _ => reply id "bad" "args"
+            end
+          else if String.eqb op "rust-to-parent" then
+            match args with
+            | [Atom anc; v] =>
+                match value_of_sexp v, lookup_decl fl ty, lookup_decl fl anc with
+                | Some (VObj obj), Some d, Some a =>
+                    show_outcome id eerr_name json_of_value
+                      (to_ancestor (S (List.length (f_decls fl))) fu fl sch d a obj)
+                | _, _, _ => reply id "bad" "value"
+                end
+            | _ => reply id "bad" "args"
+            end
+          else if String.eqb op "enum-rust" then
+            match args, lookup_decl fl ty with
+            | [Atom x], Some (DEnum _ tags w) =>
+                match N_of_dec x with
+                | Some n => reply id "ok" (etry_str (rust_enum_try_from tags w n) ++ tab
+                                             ++ (match spec_enum_of_N tags w n with
+                                                 | Some e => "ok:" ++ evariant_str e
+                                                 | None => "err" end))
+                | None => reply id "bad" "int"
+                end
+            | _, _ => reply id "bad" "args"
+            end
+          else if String.eqb op "enum-sweep" then
+            match args, lookup_decl fl ty with
+            | [Atom lo; Atom n], Some (DEnum _ tags w) =>
+                match N_of_dec lo with
+                | Some l => reply id "ok" (concat_sep "," (enum_sweep (nat_of_atom n) tags w l "" l 0 []))
+                | None => reply id "bad" "int"
+                end
+            | _, _ => reply id "bad" "args"
+            end
+          else if String.eqb op "enum-default" then
+            match lookup_decl fl ty with
+            | Some (DEnum _ tags w) =>
+                reply id "ok" (match rust_enum_default tags with Some v => dec_of_N v | None => "panic" end)
+            | _ => reply id "bad" "args"
+            end
+          else if String.eqb op "schema" then reply id "ok" (schema_dump fl sch)
           else reply id "bad" "op"
       end
   | _ => "?" ++ tab ++ "bad" ++ tab ++ "line"
